@@ -123,6 +123,10 @@ type c11Pod struct {
 	reqMid    int64
 	reqBatch  int64
 	batchCPU  int64 // batch-cpu request (BE CPU path)
+	// metric fixture (verif_c11_metric_test.go): how the usage is (not) present in the metric cache
+	qerr   bool        // the querier fails
+	series []c11Sample // points in storage order; hasMetric / milli above are the EFFECTIVE values
+	mstate string
 }
 
 var c11ClsNames = []string{"", "koord-prod", "koord-mid", "koord-batch", "koord-free", "koord-bogus"}
@@ -472,14 +476,23 @@ func TestVerifC11Select(t *testing.T) {
 		mc.EXPECT().Querier(gomock.Any(), gomock.Any()).Return(q, nil).AnyTimes()
 		for _, p := range pods {
 			res := mock_metriccache.NewMockAggregateResult(ctl)
-			res.EXPECT().Value(gomock.Any()).Return(c11MetricValue(p.milli), nil).AnyTimes()
-			res.EXPECT().Count().Return(1).AnyTimes()
+			// a pod without a metric: the query fails, or it succeeds with an EMPTY result (Count()==0, Value errs)
+			p.qerr = !p.hasMetric && r.Chance(1, 2)
+			p.mstate = map[bool]string{true: "single", false: map[bool]string{true: "qerr", false: "empty"}[p.qerr]}[p.hasMetric]
+			h.Tag("metric-state:" + p.mstate)
+			if !p.hasMetric && !p.qerr {
+				res.EXPECT().Value(gomock.Any()).Return(float64(0), fmt.Errorf("metric input is empty")).AnyTimes()
+				res.EXPECT().Count().Return(0).AnyTimes()
+			} else {
+				res.EXPECT().Value(gomock.Any()).Return(c11MetricValue(p.milli), nil).AnyTimes()
+				res.EXPECT().Count().Return(1).AnyTimes()
+			}
 			meta, err := c11PodMetric.BuildQueryMeta(metriccache.MetricPropertiesFunc.Pod(fmt.Sprintf("u%d", p.id)))
 			if err != nil {
 				t.Fatal(err)
 			}
 			rf.EXPECT().New(meta).Return(res).AnyTimes()
-			if p.hasMetric {
+			if !p.qerr {
 				q.EXPECT().QueryAndClose(meta, gomock.Any(), gomock.Any()).SetArg(2, *res).Return(nil).AnyTimes()
 			} else {
 				q.EXPECT().QueryAndClose(meta, gomock.Any(), gomock.Any()).Return(fmt.Errorf("no metric")).AnyTimes()
@@ -580,6 +593,9 @@ func TestVerifC11Select(t *testing.T) {
 			for i, p := range sel {
 				if !((p.prioAmbiguous() || p.effPrio() <= thr) && p.evictLbl == 1 && p.policyOK()) {
 					h.Fail("C11:ineligible-victim", "priority path: pod %d (prio %d thr %d evictLbl %d policy %d/%v) selected", p.id, p.effPrio(), thr, p.evictLbl, p.polTop, p.polElems)
+				}
+				if !p.hasMetric {
+					h.Fail("C11:victim-without-metric", "priority path: pod %d listed as a victim although the agent has no usage sample of it (%s)", p.id, p.mstate)
 				}
 				if i > 0 && (p.prioAmbiguous() || sel[i-1].prioAmbiguous() || (byReq && (p.clsAmbiguous() || sel[i-1].clsAmbiguous()))) {
 					continue
